@@ -72,6 +72,7 @@ def rules_for(pid):
             ("H-complete", lambda c: RH.h_complete(c.P, c.E, c.H, scope_c02), 24),
             ("H-serial", lambda c: RH.h_serial(c.P, c.E, c.H), 48),
             ("K-fresh-state", lambda c: RK.k_fresh_state(c.P, c.E, lambda root: not _is_combinator_root(root)), 30),
+            ("D-compose", lambda c: RO.d_compose(c.P, c.E), 3),
         ],
         "C03": [
             ("H-register-first", lambda c: RH.h_register_first(c.P, c.E, c.H), 16),
@@ -94,6 +95,7 @@ def rules_for(pid):
         ],
         "C05": [
             ("O-unsub-order", lambda c: RO.o_unsub_order(c.P, c.E), 8),
+            ("S-wiring", lambda c: RO.s_wiring(c.P, c.E), 3),
             ("SUB", lambda c: RO.sub_rules(c.P, c.E), 6),
             ("F-atomic-take", lambda c: RO.f_atomic_take(c.P, c.E), 3),
             ("O-typestate", lambda c: RO.o_typestate(
@@ -102,6 +104,7 @@ def rules_for(pid):
         ],
         "C06": [
             ("H-early-stop", lambda c: RH.h_early_stop(c.P, c.E, c.H), 40),
+            ("S-wiring", lambda c: RO.s_wiring(c.P, c.E), 3),
             ("S-finalize-after-terminal", lambda c: RO.s_finalize_after_terminal(c.P, c.E), 6),
             ("S-finalize-shape", lambda c: RO.s_finalize_shape(c.P, c.E), 4),
             ("R1", lambda c: RH.r1_retry_drops_first(c.P, c.E, c.H), 3),
@@ -143,6 +146,7 @@ def rules_for(pid):
         ],
         "C10": [
             ("J", lambda c: RJ.j_rules(c.P, c.E), 14),
+            ("D-compose", lambda c: RO.d_compose(c.P, c.E), 3),
             ("L2", lambda c: RL.l2_leaf_locks(c.P, c.E), 12),
         ],
         "C11": [
